@@ -171,21 +171,6 @@ pub broadcast proof fn axiom_vec_from_slice(s: &[u8])
     ensures
         #[trigger] <Vec<u8> as vstd::std_specs::convert::FromSpec<&[u8]>>::from_spec(s)@ == s@,
 {}
-/// a `Bytes` exists for every byte sequence
-#[verifier::external_body]
-pub broadcast proof fn axiom_bytes_of(s: Seq<u8>)
-    ensures bview(&#[trigger] bytes_of(s)) == s,
-{}
-#[verifier::external_body]
-pub broadcast proof fn axiom_ip4_of(s: Seq<u8>)
-    requires s.len() == 4,
-    ensures ip4_octets(#[trigger] ip4_of(s)) == s,
-{}
-#[verifier::external_body]
-pub broadcast proof fn axiom_ip6_of(s: Seq<u8>)
-    requires s.len() == 16,
-    ensures ip6_octets(#[trigger] ip6_of(s)) == s,
-{}
 #[verifier::external_body]
 pub broadcast proof fn axiom_ip4_len(a: std::net::Ipv4Addr)
     ensures #[trigger] ip4_octets(a).len() == 4,
@@ -199,6 +184,6 @@ pub broadcast group group_trusted {
     axiom_slice_eq, axiom_slice_obeys, axiom_slice_ext, axiom_bytes_from_vec, axiom_bytes_from_vec_obeys, axiom_vec_len_bound, axiom_bm_len_bound, axiom_arr_eq, axiom_arr_obeys, axiom_vec_eq, axiom_vec_obeys, axiom_string_str_eq, axiom_string_str_obeys, axiom_string_refstr_eq, axiom_string_refstr_obeys, axiom_lossy_v4, axiom_slice_ord, axiom_slice_pord_obeys,
     axiom_vecu8_ord, axiom_vecu8_ord2, axiom_vecu8_borrow, axiom_vecu8_ext,
     axiom_contains_borrowed, axiom_maps_borrowed, axiom_removed_borrowed, axiom_vecu8_cmp,
-    axiom_vec_ref, axiom_str_ref, axiom_vec_of, axiom_vec_from_str, axiom_vec_from_slice, axiom_vec_from_str_obeys, axiom_vec_from_slice_obeys, axiom_array_ref, axiom_bytes_of,
-    axiom_ip4_of, axiom_ip6_of, axiom_ip4_len, axiom_ip6_len,
+    axiom_vec_ref, axiom_str_ref, axiom_vec_of, axiom_vec_from_str, axiom_vec_from_slice, axiom_vec_from_str_obeys, axiom_vec_from_slice_obeys, axiom_array_ref,
+    axiom_ip4_len, axiom_ip6_len,
 }
